@@ -271,6 +271,7 @@ func runSL(env *Env) {
 	}
 
 	localStats := plan.Knob("localstats", 0) == 1
+	insertDied := false // an Insert panicked: its history entry is missing, linearizability is not checked
 	var taskStats []*skiplist.Stats
 	for ti, tp := range plan.Tasks {
 		ti, tp := ti, tp
@@ -291,7 +292,29 @@ func runSL(env *Env) {
 				call := s.Stamp()
 				switch op.K {
 				case "ins":
-					n, ok := sl.Insert2(newItem(k), cmp, nil, buf, levelRand(op.Arg(1)), sts)
+					var n *skiplist.Node
+					var ok bool
+					died := ""
+					func() {
+						if !mm {
+							// with Go-managed memory a panic inside Insert is not a memory fault of the
+							// reclamation scheme: the calling goroutine dies, everybody else goes on, and
+							// what the dead insert left behind is judged at quiescence (C14)
+							defer func() {
+								if r := recover(); r != nil {
+									died = fmt.Sprint(r)
+								}
+							}()
+						}
+						n, ok = sl.Insert2(newItem(k), cmp, nil, buf, levelRand(op.Arg(1)), sts)
+					}()
+					if died != "" {
+						s.EndOp()
+						env.Violate("C13", "panic:"+panicClass(": "+died), "%s: Insert(%d) panicked: %s", tp.Name, k, died)
+						env.Logf("%s ins(%d) panicked", tp.Name, k)
+						insertDied = true
+						return
+					}
 					out.Ok = ok
 					if ok {
 						out.Node = idOf(n)
@@ -413,7 +436,9 @@ func runSL(env *Env) {
 			env.Violate("C13", "stable-item-lost", "stable item %d missing from final scan %v", k, scan)
 		}
 	}
-	checkLinearizable(env, "C13", slModel, hist)
+	if !insertDied {
+		checkLinearizable(env, "C13", slModel, hist)
+	}
 
 	// C14: structure and statistics
 	var isLive func(unsafe.Pointer) bool
